@@ -135,6 +135,8 @@ def correspondence(prop, run):
         as_box = rng.random() < 0.3
         cbw = F(rng.randrange(1, 3201), 4)
         cbh = cbw if rng.random() < 0.1 else F(rng.randrange(1, 3201), 4)
+        if kind == 'block' and rng.random() < 0.3:
+            cbh = AUTO              # a containing block whose height depends on its content (never for page / margin boxes)
         dims, maxs, borders = random_style(rng, kind == 'page')
         out = docs.outcome(lambda: impl_respct(kind, sizing, as_box, cbw, cbh, dims, maxs, borders))
         vertical_pct = any(isinstance(dims[k], tuple) for k in (2, 3, 6, 7))
@@ -142,7 +144,8 @@ def correspondence(prop, run):
                         borders), out,
                 meta={'fn': 'respct', 'args': [kind, sizing, as_box, cbw, cbh, [wire(v) for v in dims],
                                                [wire(v) for v in maxs], borders]},
-                nontrivial=vertical_pct and cbw != cbh, tags=[kind, sizing, 'cb-box' if as_box else 'cb-tuple'])
+                nontrivial=vertical_pct and cbw != cbh,
+                tags=[kind, sizing, 'cb-box' if as_box else 'cb-tuple'] + (['cb-height-auto'] if cbh == AUTO else []))
     sec = run.section(
         'page-box-percentages', 'the prefix of make_page on a real PageBox: resolve_percentages(page, size); page_width; '
         'page_height — Page.width/height, content size, margins, paddings; non-trivial = a vertical margin or '
@@ -184,7 +187,7 @@ def css(v):
 
 
 def parse_groups(impl):
-    return [[a if a in (AUTO, 'inf') else F(a) for a in grp] for grp in sx.loads_line(impl)]
+    return [[a if a in (AUTO, 'inf', 'nan') else F(a) for a in grp] for grp in sx.loads_line(impl)]
 
 
 def judge_respct(args, impl):
@@ -196,7 +199,8 @@ def judge_respct(args, impl):
     if impl.startswith('err:'):
         return f'resolve_percentages raised {impl}'
     dims = [unwire(v) for v in dims]
-    cbw, cbh = F(cbw), F(cbh)
+    auto_height = cbh == AUTO
+    cbw, cbh = F(cbw), (F(0) if auto_height else F(cbh))
     margins, paddings, size, _, _ = parse_groups(impl)
     vertical = cbh if kind == 'page' else cbw
     for names, got, vals in (('margin', margins, dims[:4]), ('padding', paddings, dims[4:8])):
@@ -215,10 +219,26 @@ def judge_respct(args, impl):
     delta = {'content': (F(0), F(0)), 'padding': (pl + pr, pt + pb),
              'border': (pl + pr + borders[3] + borders[1], pt + pb + borders[0] + borders[2])}[sizing]
     (_, _, _, (min_w, min_h, max_w, max_h), _) = parse_groups(impl)
+    if auto_height:
+        # CSS 2.1 §10.5 / §10.7: with an indefinite containing-block height a percentage height is `auto`, a percentage
+        # min-height is 0 and a percentage max-height is `none`
+        for name, have, value, d in (('height', size[1], dims[9], delta[1]), ('min-height', min_h, dims[11], delta[1]),
+                                     ('max-height', max_h, maxs[1], delta[1])):
+            pct = isinstance(value, tuple)
+            want = {'height': AUTO, 'min-height': F(0), 'max-height': 'inf'}[name] if pct or value in (AUTO, 'inf') else value
+            if name == 'max-height' and pct and value[1] == 0:
+                continue             # `max-height: 0%`: the implementation's nan behaves like `none` later on
+            if d > 0 and want not in (AUTO, 'inf'):
+                want = max(F(0), want - d)
+            if have != want:
+                return (f'{name}: {css(value)} with an indefinite containing-block height and box-sizing: {SIZINGS[sizing]} '
+                        f'has the used value {have}, expected {want}')
     for name, have, value, referent, d in (
             ('width', size[0], dims[8], cbw, delta[0]), ('height', size[1], dims[9], cbh, delta[1]),
             ('min-width', min_w, dims[10], cbw, delta[0]), ('min-height', min_h, dims[11], cbh, delta[1]),
             ('max-width', max_w, maxs[0], cbw, delta[0]), ('max-height', max_h, maxs[1], cbh, delta[1])):
+        if auto_height and name.endswith('height'):
+            continue
         want = 'inf' if value == 'inf' else refer(value, referent)
         if want == AUTO and name.startswith('min-'):
             want = F(0)
@@ -264,7 +284,7 @@ def replay(meta):
     args = list(meta['args'])
     if meta['fn'] == 'respct':
         kind, sizing, as_box, cbw, cbh, dims, maxs, borders = args
-        call = [kind, sizing, as_box, F(cbw), F(cbh), [unwire(v) for v in dims], [unwire(v) for v in maxs],
+        call = [kind, sizing, as_box, F(cbw), AUTO if cbh == AUTO else F(cbh), [unwire(v) for v in dims], [unwire(v) for v in maxs],
                 [F(b) for b in borders]]
         return judge_respct(args, docs.outcome(lambda: impl_respct(*call)))
     sizing, cbw, cbh, dims, maxs, borders = args
